@@ -45,17 +45,20 @@ func zzCheckInvariants(ps *PeerSet, when string) {
 // ZZ_C30_peerset_ops: sequences of peer-set operations with symbolic slot limits and symbolic
 // reputation changes; invariants checked after every operation.
 func ZZ_C30_peerset_ops() {
+	zzC30Ops(vrt.Param("ops", 3), vrt.Param("peers", len(zzPeers)))
+}
+
+func zzC30Ops(nops, npeers int) {
 	maxIn, maxOut := vrt.U32("max_in"), vrt.U32("max_out")
 	vrt.Assume(vrt.And(maxIn <= 2, maxOut <= 2))
 	reservedOnly := vrt.Bool("reserved_only")
 	ps, err := newPeerSet(NewConfigSet(maxIn, maxOut, reservedOnly, time.Hour))
 	vrt.Assert("new_ok", err == nil)
 	ps.resultMsgCh = make(chan Message, 4096)
-	nops := vrt.Param("ops", 3)
 	unreservedConnected := false
 	for i := 0; i < nops; i++ {
 		sfx := string(rune('0' + i))
-		p := zzPeers[vrt.Choice("peer"+sfx, len(zzPeers))]
+		p := zzPeers[vrt.Choice("peer"+sfx, npeers)]
 		op := vrt.Choice("op"+sfx, 8)
 		if op == 3 {
 			// region of known finding R1: un-reserving a peer that is connected
@@ -125,4 +128,10 @@ func ZZ_C30_report_many() {
 		}
 	}
 	vrt.Reach("end")
+}
+
+// ZZ_C30_single_peer_ops: longer histories (5 operations) concentrated on one peer, so that
+// multi-step ban/forget/re-accept sequences are covered.
+func ZZ_C30_single_peer_ops() {
+	zzC30Ops(vrt.Param("ops1", 5), 1)
 }
